@@ -98,6 +98,11 @@ def cases(tier, seed):
     for p, route in itertools.product(("static", "screening"), ("disk", "memory", "chain")):
         out.append(dict(fam="solution", phys=p, route=route, k=2, probes=False))
     out.append(dict(fam="solution", phys="screening", route="memory", k=2))
+    # the file a run writes is itself a saved solution: it is loaded as it stands, without an explicit to_hdf5 by the caller
+    for p in ("static", "tdep", "callable_current", "callable_eps", "composite_tdep", "screening"):
+        for k in (2,) if tier == "quick" else (1, 2, 3):
+            out.append(dict(fam="solution", phys=p, route="direct", k=k))
+    out.append(dict(fam="solution", phys="static", route="direct", k=2, probes=False))
     return out
 
 
@@ -474,7 +479,7 @@ def run_solution(case):
     phys = case["phys"]
     kw = dict(applied_vector_potential=0.3, terminal_currents={"source": 1.0, "drain": -1.0})
     o = dict(solve_time=5 * dt, dt_init=dt, dt_max=dt, adaptive=False, save_every=case["k"], progress_interval=10**9,
-             output_file=("run.h5" if case["route"] == "disk" else None))
+             output_file=("run.h5" if case["route"] in ("disk", "direct") else None))
     if phys == "tdep":
         kw["applied_vector_potential"] = tdgl.Parameter(_tramp, time_dependent=True)
     elif phys == "composite_tdep":
@@ -499,6 +504,8 @@ def run_solution(case):
             second.to_hdf5()
             second.to_hdf5("copy.h5")
             back = tdgl.Solution.from_hdf5("copy.h5")
+        elif case["route"] == "direct":
+            back = tdgl.Solution.from_hdf5("run.h5")
         else:
             sol.to_hdf5("copy.h5")
             back = tdgl.Solution.from_hdf5("copy.h5")
@@ -521,7 +528,7 @@ def run_solution(case):
     steps = range(back.data_range[0], back.data_range[1] + 1)
     dt_full = None if sol.dynamics is None else np.array(sol.dynamics.dt, float)
     times_full = np.array(sol.times, float)
-    if case["route"] in ("disk", "chain"):
+    if case["route"] in ("disk", "chain", "direct"):
         if tuple(back.data_range) != tuple(sol.data_range):
             diffs.append("data_range")
         for i in steps:
